@@ -36,13 +36,14 @@ import (
 )
 
 const c37RuleRT = "case = generated DDL program for one table (CREATE TABLE over int/decimal/float/char/varchar(collations)/binary/text/blob/json/date/datetime/timestamp/time/year/enum/set/bit/bool columns with literal and expression defaults, generated columns, comments, AUTO_INCREMENT, ON UPDATE, CHECKs, unique/prefix/multi-column indexes, a foreign key; then 0-6 ALTERs); after every accepted statement the in-process schema.Schema is serialized, deserialized and compared attribute by attribute; SHOW CREATE TABLE is compared on a clone/restored backup and after restarts. Non-trivial = final schema has >= 1 expression default or generated column, >= 1 column with a non-default collation and >= 1 secondary index."
-const c37RuleTags = "same case: the accepted DDL program is replayed on a second branch forked before the table existed and in an independent database; column tags, schema hash and SHOW CREATE TABLE must coincide and dolt_merge of the two branches must report no conflict. Non-trivial = >= 2 accepted ALTER statements after the CREATE."
+const c37RuleTags = "same case: the accepted DDL program (including drop-then-re-add of a column under the same name and definition, and rename-back) is replayed on a second branch forked before the table existed and in an independent database, each with a different dolt_commit cadence (first branch: one commit at the end; second branch: after drawn statements; independent database: after every statement); column tags, schema hash, dolt_hashof_table and SHOW CREATE TABLE must coincide and dolt_merge of the two branches must report no conflict. Non-trivial = >= 2 accepted ALTER statements after the CREATE."
 
 var c37Assumptions = []string{
 	"statements dolt rejects on the first branch are dropped from the program (nothing is asserted about which DDL dolt accepts); a statement accepted on the first branch must be accepted on every replay",
 	"the second branch and the independent database receive exactly the same statement sequence (including the parent table of the foreign key): tag collision resolution against tables that exist on one side only is by design and not asserted",
 	"FULLTEXT, SPATIAL and VECTOR indexes are not generated",
 	"tables hold no rows (tags and serialization do not depend on data)",
+	"while finding " + c37FindCadence + " is listed open, in a program that re-adds a dropped column with NOT NULL or a DEFAULT (table-rewrite path) the tags of those columns are left out of the tag comparison and the schema/table hashes are not compared (cases where they differ are counted as excluded_known); re-adds of nullable columns without default are compared in full; the pinned sub-test reports it",
 	"while finding " + c37FindIdxComment + " is listed open, index comments contain no single quote (replaced comments are counted as excluded_known); the pinned sub-test reports it",
 	"the foreign key column is never part of a generated index (dolt lets DROP INDEX remove the index backing a foreign key and then refuses to commit)",
 	"while finding " + c37FindVirtualAdd + " is listed open, CHECK and table COMMENT fragments are not expected in SHOW CREATE TABLE once the table has a VIRTUAL generated column (skipped expectations are counted as excluded_known); the pinned sub-test reports it",
@@ -248,6 +249,8 @@ type c37Col struct {
 	Len   int // declared length of char/binary types (bounds index prefix lengths)
 	Gen   bool
 	PK    bool
+	Spec  string // "<type> <options>" the column was last defined with (for drop-then-re-add)
+	Prev  string // the name the column had before its last rename (for rename-back)
 }
 
 type c37Model struct {
@@ -260,6 +263,12 @@ type c37Model struct {
 	ExprDefault bool
 	NonDefColl  bool
 	HasVirtual  bool
+	// Dropped: columns removed by DROP COLUMN, most recent last (candidates for re-adding under the
+	// same name with the same definition)
+	Dropped []c37Col
+	// RewriteReadd: columns re-added (same name as a dropped column) with NOT NULL or a DEFAULT, i.e.
+	// through dolt's table-rewrite path, whose tag choice consults the branch HEAD
+	RewriteReadd map[string]bool
 	// Ref: columns named by a CHECK or by a generated column's expression. They are never
 	// renamed, retyped or dropped (dolt accepts e.g. CHANGE COLUMN of a column a CHECK refers to
 	// and leaves the table unusable; that is outside this property).
@@ -627,6 +636,7 @@ func c37GenCreate(rt *rapid.T, m *c37Model) c37Stmt {
 		sp := c37GenColSpec(rt, tmp, class, !pk)
 		sp.Col.Name = fmt.Sprintf("c%d", i)
 		sp.Col.PK = pk
+		sp.Col.Spec = sp.SQL
 		sql := sp.SQL
 		if pk {
 			if !strings.Contains(sql, "NOT NULL") {
@@ -738,9 +748,33 @@ func c37GenAlter(rt *rapid.T, m *c37Model) c37Stmt {
 	for try := 0; try < 6; try++ {
 		switch rapid.SampledFrom(ops).Draw(rt, "alter.op") {
 		case "addcol":
+			if len(m.Dropped) > 0 && rapid.IntRange(0, 2).Draw(rt, "alter.readd") > 0 {
+				// drop-then-re-add: the same name and definition come back
+				d := m.Dropped[len(m.Dropped)-1]
+				taken := false
+				for _, x := range m.Cols {
+					if x.Name == d.Name {
+						taken = true
+					}
+				}
+				if !taken && d.Spec != "" && !d.Gen {
+					col := d
+					return c37Stmt{Alter: true, SQL: fmt.Sprintf("ALTER TABLE %s ADD COLUMN `%s` %s", t, col.Name, col.Spec), Apply: func(m *c37Model) {
+						m.Cols = append(m.Cols, col)
+						m.Dropped = m.Dropped[:len(m.Dropped)-1]
+						if strings.Contains(col.Spec, "NOT NULL") || strings.Contains(col.Spec, " DEFAULT ") {
+							if m.RewriteReadd == nil {
+								m.RewriteReadd = map[string]bool{}
+							}
+							m.RewriteReadd[col.Name] = true
+						}
+					}}
+				}
+			}
 			class := rapid.SampledFrom(c37Classes).Draw(rt, "class")
 			sp := c37GenColSpec(rt, m, class, true)
 			sp.Col.Name = m.newName("a")
+			sp.Col.Spec = sp.SQL
 			pos := ""
 			switch rapid.IntRange(0, 3).Draw(rt, "alter.pos") {
 			case 0:
@@ -767,6 +801,8 @@ func c37GenAlter(rt *rapid.T, m *c37Model) c37Stmt {
 					for _, x := range m.Cols {
 						if x.Name != c.Name {
 							keep = append(keep, x)
+						} else {
+							m.Dropped = append(m.Dropped, x)
 						}
 					}
 					m.Cols = keep
@@ -788,8 +824,12 @@ func c37GenAlter(rt *rapid.T, m *c37Model) c37Stmt {
 				return c37Stmt{Alter: true, SQL: sql, Apply: func(m *c37Model) {
 					for i := range m.Cols {
 						if m.Cols[i].Name == c.Name {
+							if newName != c.Name {
+								m.Cols[i].Prev = c.Name
+							}
 							m.Cols[i].Name = newName
 							m.Cols[i].Fsp = sp.Col.Fsp
+							m.Cols[i].Spec = sp.SQL
 						}
 					}
 					m.ExprDefault = m.ExprDefault || sp.Expr
@@ -802,9 +842,22 @@ func c37GenAlter(rt *rapid.T, m *c37Model) c37Stmt {
 				continue
 			}
 			newName := m.newName("r")
+			if c.Prev != "" && rapid.IntRange(0, 2).Draw(rt, "alter.renameback") > 0 {
+				// rename back to the previous name
+				free := true
+				for _, x := range m.Cols {
+					if x.Name == c.Prev {
+						free = false
+					}
+				}
+				if free {
+					newName = c.Prev
+				}
+			}
 			return c37Stmt{Alter: true, SQL: fmt.Sprintf("ALTER TABLE %s RENAME COLUMN `%s` TO `%s`", t, c.Name, newName), Apply: func(m *c37Model) {
 				for i := range m.Cols {
 					if m.Cols[i].Name == c.Name {
+						m.Cols[i].Prev = c.Name
 						m.Cols[i].Name = newName
 					}
 				}
@@ -929,6 +982,38 @@ func c37PinnedVirtualAdd(t *testing.T, srv *vsql.Server, admin *vsql.Session) st
 	return ""
 }
 
+// c37FindCadence: ALTER TABLE ADD COLUMN through the table-rewrite path (NOT NULL or DEFAULT) treats
+// every tag still present in the branch HEAD as taken, so a column that is dropped and re-added
+// under the same name gets its old tag back only if a dolt_commit happened in between: the same DDL
+// on two branches with different commit cadence yields different tags and table hashes.
+const c37FindCadence = "C37-readd-tag-depends-on-commit-cadence"
+
+var c37CadenceOpen bool
+
+func c37PinnedCadence(t *testing.T, srv *vsql.Server, admin *vsql.Session) string {
+	var hashes []string
+	for _, commitBetween := range []bool{false, true} {
+		db := srv.NewDBName()
+		admin.MustExec(t, "CREATE DATABASE "+db)
+		s := srv.Session(t, "pinned", db)
+		s.MustExec(t, "CREATE TABLE t (pk INT PRIMARY KEY, c INT NOT NULL DEFAULT 5)")
+		s.MustExec(t, "CALL dolt_commit('-Am','create')")
+		s.MustExec(t, "ALTER TABLE t DROP COLUMN c")
+		if commitBetween {
+			s.MustExec(t, "CALL dolt_commit('-Am','drop')")
+		}
+		s.MustExec(t, "ALTER TABLE t ADD COLUMN c INT NOT NULL DEFAULT 5")
+		h, _ := s.Scalar(t, "SELECT dolt_hashof_table('t')")
+		hashes = append(hashes, h)
+		s.Close()
+		_ = admin.Exec("DROP DATABASE " + db)
+	}
+	if hashes[0] != hashes[1] {
+		return "CREATE TABLE t (pk INT PRIMARY KEY, c INT NOT NULL DEFAULT 5); dolt_commit; ALTER TABLE t DROP COLUMN c; [dolt_commit or not]; ALTER TABLE t ADD COLUMN c INT NOT NULL DEFAULT 5: dolt_hashof_table('t') is " + hashes[0] + " without the commit in between and " + hashes[1] + " with it (the re-added column gets a different tag)"
+	}
+	return ""
+}
+
 // c37FindIdxComment: an index COMMENT containing a single quote is written unescaped whenever the
 // CREATE TABLE text is regenerated and re-parsed (adding a generated column, merging the table):
 // those operations fail with "syntax error ... near 's'".
@@ -985,6 +1070,17 @@ func TestVerif_C37(t *testing.T) {
 				return
 			}
 			vh.NoteViolation(t.Name(), "", `{"sql":["CREATE TABLE t2 (c0 INT PRIMARY KEY, c1 INT, CONSTRAINT chk1 CHECK (c1 < 5), a4 INT GENERATED ALWAYS AS (c0 + 1) VIRTUAL) COMMENT='plain'","SHOW CREATE TABLE t2","INSERT INTO t2 (c0, c1) VALUES (1, 100)"],"observed":"`+strings.ReplaceAll(msg, `"`, `'`)+`"}`)
+			t.Errorf("%s", msg)
+		}
+	})
+	c37CadenceOpen = vh.OpenFinding("C37", c37FindCadence)
+	t.Run("pinned_readd_tag_depends_on_commit_cadence", func(t *testing.T) {
+		if msg := c37PinnedCadence(t, srv, admin); msg != "" {
+			if vh.OpenFinding("C37", c37FindCadence) {
+				vh.ReportKnown("C37", c37FindCadence, msg)
+				return
+			}
+			vh.NoteViolation(t.Name(), "", `{"sql":["CREATE TABLE t (pk INT PRIMARY KEY, c INT NOT NULL DEFAULT 5)","CALL dolt_commit('-Am','create')","ALTER TABLE t DROP COLUMN c","-- with / without CALL dolt_commit('-Am','drop') here","ALTER TABLE t ADD COLUMN c INT NOT NULL DEFAULT 5","SELECT dolt_hashof_table('t')"],"observed":"`+strings.ReplaceAll(msg, `"`, `'`)+`"}`)
 			t.Errorf("%s", msg)
 		}
 	})
@@ -1091,21 +1187,37 @@ func TestVerif_C37(t *testing.T) {
 		}
 
 		// (3) replay on b2 and in the independent database
-		replay := func(se *vsql.Session, where string) {
-			for _, sql := range accepted {
+		// the replays differ from b1 (which commits only at the end) in their COMMIT CADENCE: branch b2
+		// commits after drawn statements, the independent database after every statement
+		replay := func(se *vsql.Session, where string, commitAfter func(i int) bool) string {
+			var cadence []string
+			for i, sql := range accepted {
 				if err := se.Exec(sql); err != nil {
 					rt.Fatalf("C37 (3): statement accepted on branch b1 was rejected %s: %s: %v\n--- program ---\n%s", where, sql, err, prog)
 				}
+				if commitAfter(i) {
+					se.MustExec(rt, fmt.Sprintf("CALL dolt_commit('-A','--allow-empty','-m','after statement %d')", i))
+					cadence = append(cadence, fmt.Sprint(i))
+				}
 			}
+			return strings.Join(cadence, ",")
 		}
 		s2 := srv.Session(rt, "b2", dbA+"/b2")
 		defer func() { s2.Close() }()
-		replay(s2, "on branch b2")
+		commitPoints := map[int]bool{}
+		for i := range accepted {
+			if rapid.IntRange(0, 2).Draw(rt, "b2.commit_after") == 0 {
+				commitPoints[i] = true
+			}
+		}
+		cadence2 := replay(s2, "on branch b2", func(i int) bool { return commitPoints[i] })
+		prog += "\n-- branch b1 commits only at the end; branch b2 commits after statements [" + cadence2 + "]; the independent database commits after every statement"
+		c37CurProg = prog
 		sB := srv.Session(rt, "ind", dbB)
 		defer func() { sB.Close() }()
 		sB.MustExec(rt, "CREATE TABLE p (id INT PRIMARY KEY)")
 		sB.MustExec(rt, "CALL dolt_commit('-Am','base')")
-		replay(sB, "in an independent database")
+		replay(sB, "in an independent database", func(int) bool { return true })
 		for _, o := range []struct {
 			se         *vsql.Session
 			db, branch string
@@ -1118,16 +1230,44 @@ func TestVerif_C37(t *testing.T) {
 			if err != nil {
 				rt.Fatalf("HARNESS: %v", err)
 			}
-			if strings.Join(p.Tags, ",") != strings.Join(p1.Tags, ",") {
+			tagsA, tagsB := p1.Tags, p.Tags
+			cadenceGate := len(m.RewriteReadd) > 0 && c37CadenceOpen
+			if cadenceGate {
+				// known finding C37-readd-tag-depends-on-commit-cadence: the tags of columns re-added through
+				// the rewrite path are left out, and the hashes (which contain them) are not compared
+				strip := func(tags []string) []string {
+					var out []string
+					for _, tg := range tags {
+						if !m.RewriteReadd[strings.SplitN(tg, "=", 2)[0]] {
+							out = append(out, tg)
+						}
+					}
+					return out
+				}
+				tagsA, tagsB = strip(tagsA), strip(tagsB)
+			}
+			if strings.Join(tagsB, ",") != strings.Join(tagsA, ",") {
 				rt.Fatalf("C37 (3): column tags differ between %s/b1 and %s/%s after the same DDL:\n  %v\n  %v\n--- program ---\n%s", dbA, o.db, o.branch, p1.Tags, p.Tags, prog)
+			}
+			if cadenceGate {
+				if strings.Join(p.Tags, ",") != strings.Join(p1.Tags, ",") || p.Hash != p1.Hash {
+					c37Excluded++
+				}
+				continue
 			}
 			if p.Hash != p1.Hash {
 				rt.Fatalf("C37 (3): schema hash differs between %s/b1 (%s) and %s/%s (%s) after the same DDL; attribute differences: %v\n--- program ---\n%s", dbA, p1.Hash, o.db, o.branch, p.Hash, c37SchemaDiff(p1.Sch, p.Sch), prog)
 			}
+			// tables hold no rows: the table hash is a function of the schema alone
+			h1, _ := s1.Scalar(rt, "SELECT dolt_hashof_table('"+m.Table+"')")
+			h2, _ := o.se.Scalar(rt, "SELECT dolt_hashof_table('"+m.Table+"')")
+			if h1 != h2 {
+				rt.Fatalf("C37 (3): dolt_hashof_table differs between %s/b1 (%s) and %s/%s (%s) after the same DDL\n--- program ---\n%s", dbA, h1, o.db, o.branch, h2, prog)
+			}
 		}
 		// merge b2 into b1
 		s1.MustExec(rt, "CALL dolt_commit('-Am','ddl on b1')")
-		s2.MustExec(rt, "CALL dolt_commit('-Am','ddl on b2')")
+		s2.MustExec(rt, "CALL dolt_commit('-A','--allow-empty','-m','ddl on b2')")
 		mr, err := s1.Query("CALL dolt_merge('b2')")
 		if err != nil {
 			rt.Fatalf("C37 (3): merging two branches that ran the same DDL failed: %v\n--- program ---\n%s", err, prog)
